@@ -124,6 +124,39 @@ func c08Trans(c *Ctx, pre *Node, st Step, res *Result, post *State) ([]Violation
 	if err != nil {
 		return nil, false
 	}
+	preI := pa.IndexMap()
+	keepsUntracked := func() {
+		for p, d := range pa.W {
+			if _, t := preI[p]; t {
+				continue
+			}
+			if _, t := snap[p]; t {
+				continue
+			}
+			if got, ok := qa.W[p]; !ok || string(got) != string(d) {
+				bad("hard-keeps-untracked", "never-tracked file %q was changed or removed", p)
+				break
+			}
+		}
+	}
+	if ra.hard {
+		// a never-tracked file stands where the snapshot needs a directory, or the other way round: the
+		// request cannot be carried out without destroying it, and the statement does not say what happens
+		// then; the only thing judged is that the never-tracked content survives
+		for p := range pa.W {
+			_, t1 := preI[p]
+			_, t2 := snap[p]
+			if t1 || t2 {
+				continue
+			}
+			for q := range snap {
+				if strings.HasPrefix(p, q+"/") || strings.HasPrefix(q, p+"/") {
+					keepsUntracked()
+					return vs, false
+				}
+			}
+		}
+	}
 	if res.Exit != 0 {
 		bad("valid-reset-applies", "reset %v to %s (shown by reflog at HEAD@{%d}) failed", st.Args[1:], en.ID7, n)
 		// still judge what it left behind: a failed reset must not have half-moved things silently
@@ -147,7 +180,6 @@ func c08Trans(c *Ctx, pre *Node, st Step, res *Result, post *State) ([]Violation
 	if len(qa.Branches) != len(pa.Branches) {
 		bad("other-branches-unchanged", "branch set changed: %v -> %v", keys(pa.Branches), keys(qa.Branches))
 	}
-	preI := pa.IndexMap()
 	if ra.soft {
 		if d := diffStrMaps("staging area", preI, qa.IndexMap(), nil); d != "" || qa.IndexErr != nil {
 			bad("soft-keeps-index", "%s %v", d, qa.IndexErr)
@@ -180,18 +212,7 @@ func c08Trans(c *Ctx, pre *Node, st Step, res *Result, post *State) ([]Violation
 			break
 		}
 	}
-	for p, d := range pa.W {
-		if _, t := preI[p]; t {
-			continue
-		}
-		if _, t := snap[p]; t {
-			continue
-		}
-		if got, ok := qa.W[p]; !ok || string(got) != string(d) {
-			bad("hard-keeps-untracked", "never-tracked file %q was changed or removed", p)
-			break
-		}
-	}
+	keepsUntracked()
 	return vs, len(vs) == 0
 }
 
@@ -200,7 +221,8 @@ func checkC08(e *RunEnv) *CheckResult {
 	modes := [][]string{{"--soft"}, {"--mixed"}, {"--hard"}, {}, {"--soft", "--hard"}}
 	spec := &Spec{
 		Seeds: []Seed{{"S2", seedS2()}, {"S3", seedS3()}, {"chain12", seedChain(12)}, {"S4", seedS4()},
-			{"percent-dir", append(seedS1(), Write("p%sq/x", "x v1\n"), Write("é/y z", "y\n"), Run("add", "p%sq", "é"), Run("commit", "-m", "c2"), Write("p%sq/x", "x v2\n"), Run("add", "p%sq"), Run("commit", "-m", "c3"))}},
+			{"percent-dir", append(seedS1(), Write("p%sq/x", "x v1\n"), Write("é/y z", "y\n"), Run("add", "p%sq", "é"), Run("commit", "-m", "c2"), Write("p%sq/x", "x v2\n"), Run("add", "p%sq"), Run("commit", "-m", "c3"))},
+			{"deep-dir", append(seedS1(), Write("lib/core/util/a.txt", "a1\n"), Write("lib/z.txt", "z1\n"), Run("add", "lib"), Run("commit", "-m", "c2"), Write("lib/core/util/a.txt", "a2\n"), Run("add", "lib"), Run("commit", "-m", "c3"))}},
 		Depth: e.pick(3, 5),
 		Steps: func(n *Node) []Step {
 			a := n.Abs()
@@ -227,6 +249,10 @@ func checkC08(e *RunEnv) *CheckResult {
 					steps = append(steps, Run(args...).WithTags(unionTags(t, pt, []string{"mode:" + strings.Join(m, "+")})...))
 				}
 			}
+			// leading zeros: still a decimal number
+			for _, z := range []string{"HEAD@{00}", "HEAD@{01}", "HEAD@{010}", "HEAD@{08}"} {
+				steps = append(steps, Run("reset", "--soft", z).WithTags(unionTags(t, []string{"mode:--soft", "leading-zeros"})...))
+			}
 			if !long {
 				// flags after the argument, and a flag given twice
 				steps = append(steps, Run("reset", "HEAD@{1}", "--hard").WithTags(unionTags(t, []string{"mode:--hard"})...), Run("reset", "HEAD@{0}", "--soft").WithTags(unionTags(t, []string{"mode:--soft"})...),
@@ -247,6 +273,13 @@ func checkC08(e *RunEnv) *CheckResult {
 				}
 				if hasDirOnDisk(a, "d") {
 					steps = append(steps, Rmdir("d"))
+				}
+				if hasDirOnDisk(a, "lib") {
+					steps = append(steps, Rmdir("lib"))
+				}
+				// the tracked file a replaced by a directory that holds a never-tracked file
+				if _, ok := a.W["a"]; ok {
+					steps = append(steps, Write("a/u", "never tracked, inside a directory named like a tracked file\n"))
 				}
 				if _, ok := a.W["u"]; !ok {
 					steps = append(steps, Write("u", "untracked\n"), Write("a.tmp", "a never-tracked file next to a\n"))
